@@ -225,11 +225,29 @@ func (g *g15) submit() string {
 		}
 		tx, kind = w.BVM(caller, harness.AddrRole, op, pb.String(c.Addr.String()), pb.String("r")), "role-lifecycle"
 	}
+	// who is definitely not an available admin right now (frozen, logged out, never registered): "eligible when
+	// it was created" - none of them may appear in the new proposal's electorate
+	notAvail := map[string]string{}
+	for _, k := range g.admins {
+		if st, _ := g.roleStatus(k.Addr.String()); st == "frozen" || st == "forbidden" || st == "unavailable" || st == "" {
+			notAvail[k.Addr.String()] = st
+		}
+	}
 	res, err := w.Exec(tx)
 	if err != nil {
 		return ""
 	}
 	rc := res.Receipts[0]
+	if rc.Status == pb.Receipt_SUCCESS {
+		if p, _ := g.proposal(harness.ProposalID(rc)); p != nil {
+			g.w.Count("obs_electorates_checked", 1)
+			for _, e := range p.ElectorateList {
+				if st, bad := notAvail[e.ID]; bad {
+					g.viol("electorate:unavailable-admin-listed", fmt.Sprintf("proposal %s lists %s in its electorate, whose role status was %q when the proposal was created", p.Id, e.ID, st))
+				}
+			}
+		}
+	}
 	if rc.Status != pb.Receipt_SUCCESS {
 		g.w.Count("submissions_refused", 1)
 		g.hist = append(g.hist, fmt.Sprintf("h%d submit %s refused: %.60s", res.Height, kind, string(rc.Ret)))
